@@ -13,4 +13,66 @@ META = {
                  "oracles/generators. Modelled not verified: unsafe pointer writes (compared byte-for-byte by the differential run), zero-copy lifetimes."),
         "technique": "Lean 4 theorem proving (round-trip/agreement theorems) + regenerated-model bridge lemmas + differential correspondence",
     },
+
+    "C01": {
+        "category": "proof",
+        "text": ("Composition theorem in Lean: for every list of consistent frames (any subset, duplicates, order, overlap) and any read "
+                 "pattern, the reassembly model yields a prefix of the sender's byte string and exactly that string at clean end of stream. "
+                 "The assumptions of the composition (frames an endpoint emits are consistent with what its application wrote; only genuine "
+                 "packets are processed, each once; the real Reassembler behaves like the model) are tied to /repo by differential runs of the "
+                 "model against the real Reassembler and by real end-to-end client/server runs under drop/duplicate/reorder/corrupt/truncate/"
+                 "MTU-drop/inject/replay faults with keyed, position-dependent 64-bit payloads, small windows, both congestion controllers."),
+        "note": "Trusted: Lean kernel (standard axioms only) for the theorems; the vh-e2e harness, trace format, python RFC frame/TLS parsers and oracles for the tie. The end-to-end exploration is sampling of real client+server runs on the repo's deterministic IO provider (it validates the model's assumptions against the implementation); TLS, AEAD and the OS are not modelled.",
+        "technique": "Lean 4 theorem proving (reassembly prefix/completeness by induction over arbitrary frame lists) + differential and end-to-end trace correspondence",
+    },
+    "C02": {
+        "category": "proof",
+        "text": ("PARTIAL. Safety invariants of the timer/retransmission state machines are Lean theorems (PTO armed whenever ack-eliciting "
+                 "data is in flight, PTO backoff, idle deadline bound); the liveness clause cannot be proved for the real executor and is "
+                 "validated by end-to-end runs: finite fault prefixes including total blackholes at every phase followed by recovery must "
+                 "complete, permanent blackholes must be reported by both endpoints no later than the effective idle deadline "
+                 "(restart time + max(idle, 3 x current PTO)), and the simulator's stall detector must never fire."),
+        "note": "Trusted: Lean kernel (standard axioms only) for the theorems; the vh-e2e harness, trace format, python RFC frame/TLS parsers and oracles for the tie. The end-to-end exploration is sampling of real client+server runs on the repo's deterministic IO provider (it validates the model's assumptions against the implementation); TLS, AEAD and the OS are not modelled. The liveness half is exploration, not proof; real timers, tokio and OS wake-ups are not modelled.",
+        "technique": "Lean 4 invariants over timer state machines (safety) + end-to-end fault-prefix exploration with an idle-deadline oracle (liveness, partial)",
+    },
+    "C03": {
+        "category": "proof",
+        "text": ("Lean theorems over the send-side flow-control model (credit conservation, every emitted frame within the stream and "
+                 "connection limits, RESET_STREAM final size within limits) tied to /repo by end-to-end traces: every STREAM/RESET_STREAM "
+                 "frame an endpoint emits (packet interceptor, cleartext) is checked against the limits the same endpoint actually received "
+                 "(peer transport parameters parsed independently from the TLS messages, MAX_DATA / MAX_STREAM_DATA / MAX_STREAMS frames), "
+                 "with tiny windows, all blocking kinds, resets after queued data, loss of MAX_* frames."),
+        "note": "Trusted: Lean kernel (standard axioms only) for the theorems; the vh-e2e harness, trace format, python RFC frame/TLS parsers and oracles for the tie. The end-to-end exploration is sampling of real client+server runs on the repo's deterministic IO provider (it validates the model's assumptions against the implementation); TLS, AEAD and the OS are not modelled.",
+        "technique": "Lean 4 invariant proofs over the flow-control model + end-to-end frame-vs-credit trace oracle",
+    },
+    "C06": {
+        "category": "proof",
+        "text": ("PARTIAL (cryptography assumed ideal). Lean theorems: the duplicate window accepts each packet number at most once for every "
+                 "history (window_at_most_once) and a forged packet changes no modelled state under the ideal-AEAD assumption. Tie: end-to-end "
+                 "runs with heavy injection of forged, bit-flipped, truncated, spliced and replayed datagrams: every payload an endpoint "
+                 "processes equals a payload its peer sealed for that space/number, each (connection, space, number) is processed at most "
+                 "once, connections survive and data stays intact."),
+        "note": "Trusted: Lean kernel (standard axioms only) for the theorems; the vh-e2e harness, trace format, python RFC frame/TLS parsers and oracles for the tie. The end-to-end exploration is sampling of real client+server runs on the repo's deterministic IO provider (it validates the model's assumptions against the implementation); TLS, AEAD and the OS are not modelled. AEAD/HP primitives are an assumption (ideal AEAD), exercised but not verified.",
+        "technique": "Lean 4 theorems (duplicate window refinement, at-most-once) + end-to-end forgery/replay trace oracle",
+    },
+    "C08": {
+        "category": "proof",
+        "text": ("Lean theorems: packet-number truncation/expansion round-trips for all numbers below 2^62 and every admissible largest-acked "
+                 "(per window width), ACK range set never contains a number that was not inserted (ackranges_sound) and evicts only lowest "
+                 "ranges. Tie: differential runs against the real PacketNumber / ack::Ranges code and end-to-end traces in which every ACK "
+                 "frame an endpoint sends is checked against the packets it really processed, packet numbers strictly increase, and "
+                 "receiver-only endpoints acknowledge within max_ack_delay."),
+        "note": "Trusted: Lean kernel (standard axioms only) for the theorems; the vh-e2e harness, trace format, python RFC frame/TLS parsers and oracles for the tie. The end-to-end exploration is sampling of real client+server runs on the repo's deterministic IO provider (it validates the model's assumptions against the implementation); TLS, AEAD and the OS are not modelled. Promptness is checked on receiver-only endpoints (see known findings for paced / skipped ACKs).",
+        "technique": "Lean 4 theorems (truncate/expand per window, ACK-range soundness) + differential correspondence + end-to-end ACK-soundness/promptness trace oracle",
+    },
+    "C12": {
+        "category": "proof",
+        "text": ("Lean theorems over the data-sender model (retransmitted bytes identical, nothing beyond the final size, final size stable) "
+                 "tied to /repo by end-to-end traces: all STREAM/RESET_STREAM/STREAM_DATA_BLOCKED frames an endpoint emits are reassembled "
+                 "per stream across retransmissions and compared byte-for-byte with the keyed payload the application wrote; no data "
+                 "beyond or change of the final size; nothing after RESET_STREAM; after CONNECTION_CLOSE only close packets and only in "
+                 "response to incoming packets."),
+        "note": "Trusted: Lean kernel (standard axioms only) for the theorems; the vh-e2e harness, trace format, python RFC frame/TLS parsers and oracles for the tie. The end-to-end exploration is sampling of real client+server runs on the repo's deterministic IO provider (it validates the model's assumptions against the implementation); TLS, AEAD and the OS are not modelled.",
+        "technique": "Lean 4 invariant proofs over the stream-sender model + end-to-end per-stream frame-consistency trace oracle",
+    },
 }
